@@ -56,7 +56,9 @@ def run (j : Json) : Except String Json := do
     let v := verdictOf Mp cls
     out := out ++ [("verdict", .str (verdictStr v)), ("wf", .bool (wfDecl cls)),
                    ("tsafe", .bool (tsafeCls cls)), ("plain", .bool (plainDoc opts cls d)),
-                   ("declDefects", strs (declDefects cls)), ("docIssues", strs (docIssues opts cls d))]
+                   ("declDefects", strs (declDefects cls)),
+                   ("docIssues", strs (docIssues opts cls (if mapperFree then d else untrV Mp cls d))),
+                   ("cascade", .bool (cascades Mp [] cls)), ("eligible", .bool (eligible Mp cls))]
     let tru := deserializeTrusted Mp O opts cls d
     out := out ++ [("trusted", resToJson tru)]
     if mapperFree then
